@@ -25,7 +25,7 @@ rm $W/$SUB/zz_seed_demo_test.go
 echo "== apply patch"
 git -C $W apply $D/patch.diff || { echo "PATCH DOES NOT APPLY"; git -C /repo worktree remove --force $W; exit 1; }
 (cd $W && go build ./... && echo "build ok")
-/tmp/run_baseline.sh $W | tail -2
+/verif/tools/run_baseline.sh $W | tail -2
 cp $DEMO $W/$SUB/zz_seed_demo_test.go
 echo "== with patch: demo"
 (cd $W/$SUB && go test -vet=off -count=1 -timeout 300s -run 'Demo|demo|C[0-9][0-9]' . 2>&1 | grep -v "^=== RUN\|^    " | tail -6)
